@@ -1,4 +1,4 @@
-import TmVerif.Proofs.DiffApply
+import TmVerif.Proofs.DiffText
 /-!
 C27 — Line diffs are correct and minimal (property theorems only).
 
@@ -80,6 +80,33 @@ theorem C27_hunks_apply_partial (left right : List Char) (hs : List Hunk)
       simp [hl] at h
       subst h
       exact hunksOfChunks_apply _ _ cs (lcs_valid _ _ _ _ hl) (hshort cs hl)
+
+/-- The same on the rendered TEXT: parsing the unified diff that `LineDiff` prints and applying its
+hunks to the first text gives the second text (same hypothesis on run lengths). -/
+theorem C27_patch_applies_partial (left right text : List Char)
+    (h : lineDiff left right = some text) (hshort : ShortRuns left right) :
+    applyPatch text left = some right := by
+  unfold lineDiff at h
+  cases hh : lineDiffHunks left right with
+  | none => simp [hh] at h
+  | some hs =>
+    simp [hh] at h
+    subst h
+    have hgood : ∀ x ∈ hs, GoodHunk x := by
+      unfold lineDiffHunks at hh
+      split at hh
+      · cases hh; simp
+      · cases hl : lcs (splitLines left) (splitLines right) with
+        | none => simp [hl] at hh
+        | some cs =>
+          simp [hl] at hh
+          subst hh
+          exact hunksOfChunks_good _ _ cs (splitLines_noNL left) (splitLines_noNL right)
+    unfold applyPatch
+    rw [parsePatch_render hs hgood]
+    simp only
+    rw [C27_hunks_apply_partial left right hs hh hshort]
+    simp [joinLines_splitLines]
 
 /-- the full statement, without the restriction on run lengths -/
 def C27_hunks_apply_full : Prop :=
